@@ -140,6 +140,23 @@ def check_type(t, quick, acc):
             acc.violation(f"nomval_not_all_zero|{site}", {"sec": "nomval", "t": t}, z.hex())
     except Exception as e:  # noqa: BLE001
         acc.violation(f"nomval_raises|{site}|{type(e).__name__}", {"sec": "nomval", "t": t}, str(e))
+    # a caller who modifies a returned (mutable) value must not change what later calls return
+    try:
+        a = H.nomval(t)
+        if isinstance(a, list) and a:
+            a[0] ^= 0xFF
+            a[-1] ^= 0x01
+        if isinstance(a, bytearray) and a:
+            a[0] ^= 0xFF
+        if H.val2bytes(H.nomval(t), t) != bytes(n):
+            acc.violation(f"nomval_aliases_mutable_result|{site}", {"sec": "nomval", "t": t}, "second nomval() after modifying the first result no longer encodes to zero bytes")
+        b = H.bytes2val(bytes(n), t)
+        if isinstance(b, list) and b:
+            b[0] ^= 0xFF
+            if H.bytes2val(bytes(n), t) != L.dec(bytes(n), t):
+                acc.violation(f"bytes2val_aliases_mutable_result|{site}", {"sec": "nomval", "t": t}, "")
+    except Exception as e:  # noqa: BLE001
+        acc.violation(f"nomval_raises|{site}|{type(e).__name__}", {"sec": "nomval", "t": t}, str(e))
     # out-of-range / wrong type / wrong length must be refused
     for bad in out_of_range(t):
         acc.evaluations += 1
